@@ -72,6 +72,11 @@ def run(chk, searching=False):
     programs.append(("tls", words))
     programs.append(("plain", [("LOGIN", None), ("AUTHENTICATE", None)] + words[:14]))
     programs.append(("tls", [("LOGIN", None)] + words))
+    # the TLS gate for every spelling of the command word and of the SASL mechanism (both are case-insensitive)
+    after = [("LIST", '"" "*"'), ("SELECT", "INBOX"), ("FETCH", "1 (FLAGS)"), ("STATUS", "INBOX (MESSAGES)")]
+    for (cw, mech) in (("AUTHENTICATE", "plain"), ("authenticate", "Plain"), ("Authenticate", "pLaIn"), ("AUTHENTICATE", "PLAIN"), ("login", None), ("Login", None), ("LoGiN", None)):
+        programs.append(("plain", [(cw, mech)] + after))
+        programs.append(("starttls", [(cw, mech)] + after[:2]))
     programs.append(("starttls", [("LOGIN", None), ("SELECT", "INBOX"), ("SELECT", "Nope"), ("FETCH", "1 (FLAGS)"), ("STORE", "1 +FLAGS (\\Seen)"),
                                  ("SELECT", "INBOX"), ("EXAMINE", "Roles/%s/INBOX" % P.R2), ("FETCH", "1 (FLAGS)"), ("EXPUNGE", ""), ("STARTTLS", ""), ("LOGIN", None)]))
     # fault paths: a message whose stored parts are lost; every line still gets exactly one tagged completion
